@@ -21,6 +21,7 @@ import CelerVerif.Lemmas.CsgPostfix
 import CelerVerif.Lemmas.CsgFlag
 import CelerVerif.Lemmas.CsgBitStack
 import CelerVerif.Lemmas.CsgExamples
+import CelerVerif.Lemmas.CsgDeMorganD
 
 namespace CelerVerif.Csg
 open CelerVerif.Generated.Csg
@@ -197,6 +198,49 @@ theorem replaceAndSimplify_denote_partial {t t' : Tree} (inv : TreeInv t) {key :
   intro i hi
   exact (models_unique hso this.1.models i (by rw [this.2.1]; exact hi)).symm
 
+/-! ### (e) transform_negated_joins (De Morgan) -/
+
+/-- (e), per-node step: under the id-map invariant (`TrOk`: every translation entry that is set
+    points at a node of the new tree with the promised value) the opposite join emitted by
+    `build_negated_node` for a join denotes the NEGATION of that join, and the copy of a node with
+    translated children (`translateNode`) evaluates like its source. -/
+theorem deMorgan_step_sound {t r : Tree} {tr : TrMap} (pre : DMPre t) (hso : Sorted t)
+    (htr : ∀ i, TrOk t r (tr i) i) :
+    (∀ {op : Op} {ns : List Nat} {node : Node}, (∀ n ∈ ns, n < t.size) →
+      buildNegatedNode t tr op ns = .ok node →
+      ∀ σ, evalNode σ (denote r σ) node = !evalNode σ (denote t σ) (.joined op ns)) ∧
+    (∀ {i : Nat} {node : Node}, translateNode tr (t.get i) = .ok node →
+      ∀ σ, evalNode σ (denote r σ) node = evalNode σ (denote t σ) (t.get i)) :=
+  ⟨fun hns h => (buildNegatedNode_sound pre hso htr hns h).2.2.2,
+   fun h => (translateNode_sound pre htr h).2.1⟩
+
+/-- ★ (e) `transform_negated_joins` on any tree satisfying the tree invariant and the documented
+    precondition of `DeMorganSimplifier` (`DMPre`: no alias node, no `False` node, no double
+    negation), of any size up to (2^32-3)/3 nodes: whenever the transformation returns a tree
+    `t'` (`.ok`), `t'` satisfies the tree invariant, has the same number of volumes, volume `k`
+    of `t'` denotes exactly what volume `k` of `t` denotes under EVERY sense assignment, and no
+    negation of a join remains (every negation in `t'` points at a surface or at `True`).
+    Proof: induction over the node ids in increasing order with the explicit old→new id-map
+    invariant `TrOk`/`DMInv`; it does not depend on which nodes the first pass decides to keep.
+    NOT covered (no theorem): that `.ok` is always reached under the precondition, i.e. that none
+    of the compiled-out `CELER_ASSERT`s of `DeMorganSimplifier` can fail (the "TODO: is it really
+    correct in all cases" of `should_insert_join`); the model answers `.error "assert"` there, which
+    tools/checks/c10.py treats as a broken correspondence (never observed). -/
+theorem deMorgan_preserves {t t' : Tree} (pre : DMPre t) (inv : TreeInv t)
+    (hsmall : 3 * t.size + 2 ≤ invalid) (h : transformNegatedJoins t = .ok t') :
+    TreeInv t' ∧ t'.volumes.length = t.volumes.length ∧
+    (∀ k (hk : k < t.volumes.length) (hk' : k < t'.volumes.length) σ,
+      denote t' σ (t'.volumes[k]) = denote t σ (t.volumes[k])) ∧
+    (∀ i u, i < t'.size → t'.get i = .negated u → isJoined (t'.get u) = false) := by
+  rcases transformNegatedJoins_sound pre inv hsmall h with ⟨h1, h2, h3, h4⟩
+  refine ⟨h1, h2, h3, fun i u hi hg => ?_⟩
+  have := h4 i u hi hg
+  cases hgu : t'.get u <;> rw [hgu] at this <;> first | rfl | exact absurd this (by simp [IsLeaf])
+
+/-- the drivers' executable precondition check implies `DMPre` -/
+theorem deMorgan_precondition_checked {t : Tree} (h : demorganPrecondition t = true) : DMPre t :=
+  dmPre_of_precondition h
+
 /-! ### (f) InternalSurfaceFlagger -/
 
 /-- ★ (f) a node flagged "no internal surfaces" is, in every model of the tree, a constant times
@@ -223,6 +267,28 @@ theorem simplify_node_can_break_order :
     Sorted orderWitness ∧ ¬ Sorted (simplifyAt orderWitness 7).1 ∧
     (simplifyAt orderWitness 7).1.get 7 = .aliased 9 := by
   refine ⟨by decide, by decide, by decide⟩
+
+/-- whole-tree `simplify(tree, start)` breaks the order as well when nodes BELOW `start` are not
+    already simplified (its documentation asks for `start` = lowest replaced node, unchecked):
+    on `orderWitness`, `simplify(tree, 7)` terminates and leaves node 7 an alias of node 9.
+    Replayed on the real code: corpus/C10/findings/simplify-start-order.ops.  For sweeps that
+    start at or below the lowest unsimplified node no violation is known (none in the random
+    search); a proof needs the invariant sketched at `simplifyAll_preserves_partial`. -/
+theorem simplifyAll_can_break_order :
+    Sorted orderWitness ∧
+    ∃ t', simplifyAll orderWitness 7 = some t' ∧ ¬ Sorted t' ∧ t'.get 7 = .aliased 9 := by
+  refine ⟨by decide, ?_⟩
+  cases h : simplifyAll orderWitness 7 with
+  | none =>
+    have : (simplifyAll orderWitness 7).isSome = true := by decide
+    rw [h] at this; cases this
+  | some t' =>
+    have h1 : ((simplifyAll orderWitness 7).map fun t => decide (Sorted t)) = some false := by
+      decide
+    have h2 : ((simplifyAll orderWitness 7).map fun t => t.get 7) = some (.aliased 9) := by decide
+    rw [h] at h1 h2
+    simp only [Option.map_some, Option.some.injEq, decide_eq_false_iff_not] at h1 h2
+    exact ⟨t', rfl, h1, h2⟩
 
 /-- ✗ DEFECT WITNESS (real code agrees, corpus/C10/cycle-after-equivalent-exchanges.ops):
     `CsgTree::exchange` with a logically equivalent node can create a cycle.  On
@@ -388,6 +454,35 @@ example : (match replaceAndSimplify ex1 4 true with
 
 example : (match replaceAndSimplify ex1 4 true with | .ok _ _ => true | _ => false) = true := by
   decide
+
+-- (e): `ex3` = `ex1` + volume ¬(S0 ∧ S1); the transformation returns `¬S0 ∨ ¬S1`
+example : ∃ t', transformNegatedJoins ex3 = .ok t' ∧ t'.volumes.length = 1 ∧
+    (∀ σ, denote t' σ (t'.volumes.getD 0 0) = !(σ 0 && σ 1)) := by
+  have hinv : TreeInv ex3 := by
+    have h := (insert_preserves treeInv_ex1 (n := .negated 4) (by decide) (by decide)).1
+    exact treeInv_of_nodes_ids (b := (insert ex1 (.negated 4)).1) rfl rfl h
+  have hpre : DMPre ex3 := deMorgan_precondition_checked (by decide)
+  cases h : transformNegatedJoins ex3 with
+  | error e =>
+    have : (match transformNegatedJoins ex3 with | .ok _ => true | .error _ => false) = true := by
+      decide
+    rw [h] at this; cases this
+  | ok t' =>
+    have hs := deMorgan_preserves hpre hinv (by decide) h
+    have hlen : t'.volumes.length = 1 := hs.2.1
+    refine ⟨t', rfl, hlen, fun σ => ?_⟩
+    have h0 := hs.2.2.1 0 (by decide) (by omega) σ
+    have hv : t'.volumes.getD 0 0 = t'.volumes[0]'(by omega) := by
+      rw [List.getD_eq_getElem?_getD, List.getElem?_eq_getElem (by omega)]; rfl
+    rw [hv, h0]
+    have hnodes : ex3.nodes = [.tru, .negated 0, .surface 0, .surface 1, .joined .and [2, 3],
+        .negated 4] := by decide
+    have hvol : ex3.volumes[0]'(by decide) = 5 := by decide
+    rw [hvol]
+    unfold denote
+    rw [hnodes]
+    simp only [denoteFuel, evalNode, List.getD_cons_succ, List.getD_cons_zero, List.all_cons,
+      List.all_nil, Bool.and_true]
 
 -- (f): node 4 of `ex1` is flagged simple and is the conjunction S0 ∧ S1
 example : ∃ (c : Bool) (L : List Lit), ∀ σ, denote ex1 σ 4 = (c && litsHold σ L) :=
